@@ -6,7 +6,8 @@
    agrees m sh b := redu_bind m sh = Rejected \/ redu_bind m sh = Bound (restrict (device_params m) b)
    Shapes are arbitrary: any number of positionals, any list of keywords in any order. *)
 From Coq Require Import String Ascii ZArith List Bool Arith Permutation.
-From RV Require Import Base.Wire Base.Text Lang.Sig Gen.Signatures Lang.Bind Proofs.BindP.
+From RV Require Import Base.Wire Base.Text Lang.Sig Gen.Signatures Lang.Bind Proofs.BindP
+  Lang.EmitTypes Gen.EmitStage Lang.BindEmit Lang.EmitSlots Proofs.BindEmitP.
 Import ListNotations.
 Local Open Scope nat_scope.
 
@@ -152,3 +153,92 @@ Example C08_nonvacuous_guard :
   60 <= List.length agreeing_methods.
 Proof. exact nonvacuous_guard. Qed.
 Print Assumptions C08_nonvacuous_guard.
+
+(* ======================================================================================
+   Emitter stage: from the IR fields to the arguments of the firmware (Lang/BindEmit.v).
+   emit_table (coq/Gen/EmitStage.v) is regenerated on every run by probing the current emitter
+   with hand-made IR nodes: presence test of every field and the places its value is written to.
+   ====================================================================================== *)
+
+(* from the call to the firmware: whatever call Python accepts (inside the guard of Bind.v) is rejected, or bound
+   like Python AND every bound value - explicit (falsy constants 0 / 0.0 / False / "" and run-time expressions
+   included) or a non-None default - is written into the C++ as the argument of its parameter, while a
+   parameter Python binds to None (omitted None-default, or an explicit None) never appears as another constant *)
+Theorem C08_firmware_args_are_pythons_partial : forall (m : method) (sh : call_shape) (b : binding) (val : tag -> fval),
+  In m translated_methods ->
+  guard_ok (guard_of m) sh = true ->
+  py_bind (sig_of m) sh = Some b ->
+  redu_bind m sh = Rejected \/
+  (redu_bind m sh = Bound (restrict (device_params m) b) /\
+   forall p s, In (p, s) (restrict (device_params m) b) -> param_guarded m p = false ->
+     In (p, s) b /\
+     (value val s <> FConst CNone -> fw_arg m val p s = AGiven (value val s)) /\
+     (value val s = FConst CNone -> forall c, c <> CNone -> fw_arg m val p s <> AGiven (FConst c))).
+Proof. exact firmware_args_are_pythons_partial. Qed.
+Print Assumptions C08_firmware_args_are_pythons_partial.
+
+(* omitted <> explicit falsy, per method parameter: an argument passed explicitly with ANY constant other than None
+   never produces the firmware argument of the omitted (None-default) parameter *)
+Theorem C08_explicit_falsy_is_not_omitted : forall (m : method) (val : tag -> fval) (p : text) (t : tag) (c : cst),
+  In m translated_methods -> In p (device_params m) -> param_guarded m p = false ->
+  val t = FConst c -> c <> CNone ->
+  fw_arg m val p (STag t) <> fw_arg m val p (SDefault DNone).
+Proof. exact explicit_falsy_is_not_omitted. Qed.
+Print Assumptions C08_explicit_falsy_is_not_omitted.
+
+(* the same two facts per IR node field of the regenerated table *)
+Theorem C08_emit_explicit_value_reaches_slot : forall (k f : text) (e : efield) (v : fval),
+  field_of k f = Some e -> guarded k f = false -> v <> FConst CNone ->
+  reach (ef_test e) v = AGiven v.
+Proof. exact emit_explicit_value_reaches_slot. Qed.
+Print Assumptions C08_emit_explicit_value_reaches_slot.
+
+Theorem C08_emit_omitted_ne_explicit_falsy : forall (k f : text) (e : efield) (c : cst),
+  field_of k f = Some e -> guarded k f = false -> c <> CNone ->
+  reach (ef_test e) (FConst c) <> reach (ef_test e) (FConst CNone).
+Proof. exact emit_omitted_ne_explicit_falsy. Qed.
+Print Assumptions C08_emit_omitted_ne_explicit_falsy.
+
+(* no falsy constant is written exactly like a different signature default (`x or default`) *)
+Theorem C08_emit_no_falsy_constant_written_as_default : forall (k : text) (fs : list efield) (e : efield),
+  In (k, fs) emit_table -> In e fs -> ef_falsy_def e = false.
+Proof. exact emit_no_falsy_constant_written_as_default. Qed.
+Print Assumptions C08_emit_no_falsy_constant_written_as_default.
+
+(* every field reaches its own place: whichever of the other nullable fields are omitted, the field is written
+   only to places it also occupies when all fields are present (LCDDecl excepted: rw selects another constructor) *)
+Theorem C08_emit_places_stable : forall (k : text) (fs : list efield) (e : efield) (s0 : list text) (rest : list (list text)) (pat : list text) (x : text),
+  In (k, fs) emit_table -> tmem k place_guard = false -> In e fs ->
+  ef_slots e = s0 :: rest -> In pat rest -> In x pat -> In x s0.
+Proof. exact emit_places_stable. Qed.
+Print Assumptions C08_emit_places_stable.
+
+(* ... and those places are the reviewed ones (Lang/EmitSlots.v) *)
+Theorem C08_emit_places_pinned : place_summary = expected_places.
+Proof. exact places_pinned. Qed.
+Print Assumptions C08_emit_places_pinned.
+
+(* the parameter -> IR field table has the rows and device parameters of the binding table *)
+Theorem C08_ir_table_matches : ir_table_matches = true.
+Proof. exact ir_table_matches_now. Qed.
+Print Assumptions C08_ir_table_matches.
+
+(* what a truthiness test (`if node.x`) would do, and that the model does not accept it *)
+Theorem C08_truthiness_test_loses_falsy : forall c, falsy c = true ->
+  reach PTruthy (FConst c) = reach PTruthy (FConst CNone).
+Proof. exact truthy_test_loses_falsy. Qed.
+Print Assumptions C08_truthiness_test_loses_falsy.
+
+Example C08_nonvacuous_emit :
+  (exists e, field_of (T "BuzzerBeep") (T "frequency") = Some e /\ ef_test e = PNotNone /\ guarded (T "BuzzerBeep") (T "frequency") = false) /\
+  (exists e, field_of (T "LCDMessage") (T "bottom") = Some e /\ ef_test e = PNotNone /\ List.length (ef_slots e) = 2%nat) /\
+  test_of (T "Buzzer.beep") (T "frequency") = PNotNone /\
+  test_of (T "Buzzer.play_tone") (T "duration_ms") = PNotNone /\
+  test_of (T "Buzzer.beep") (T "times") = PAlways /\
+  (let val := fun t => match t with TPos _ => FConst (CNum 0 1) | TKw _ => FConst (CBool false) end in
+   fw_arg (T "Buzzer.beep") val (T "frequency") (STag (TPos 0)) = AGiven (FConst (CNum 0 1)) /\
+   fw_arg (T "Buzzer.beep") val (T "frequency") (SDefault DNone) = AOmitted /\
+   fw_arg (T "Buzzer.play_tone") val (T "duration_ms") (STag (TKw (T "duration_ms"))) = AGiven (FConst (CBool false))) /\
+  (35 <= List.length emit_table)%nat.
+Proof. exact nonvacuous_emit. Qed.
+Print Assumptions C08_nonvacuous_emit.
